@@ -338,6 +338,49 @@ def find_wrapper_case(rng, root_name):
     return term, human
 
 
+def find_wrapper_repeated(rng, times):
+    """A polling client: pynetdicom2.c_find called `times` times from one thread; the LAST call is the observation."""
+    import pynetdicom2
+    import loopback
+    from pynetdicom2 import applicationentity as aemod, sopclass, dimsemessages as dm, statuses
+    matches = [(sd.small_dataset(k), 0xFF00) for k in range(2)]
+    query = sd.small_dataset(99)
+    seen = []
+
+    class Srv(aemod.AE):
+        def on_receive_find(self, context, ds):
+            seen.append(sd.encode_ds(ds))
+            return iter([(d, statuses.Status(st, dm.CFindRSPMessage)) for d, st in matches])
+    wire_ids = []
+
+    def recording_find_scp(asce, ctx, msg):
+        wire_ids.append(int(msg.message_id))
+        return sopclass.qr_find_scp(asce, ctx, msg)
+    recording_find_scp.sop_classes = list(sopclass.qr_find_scp.sop_classes)
+    srv = Srv('SERVER', 0).add_scp(recording_find_scp)
+    srv.handle_error = lambda *a: None
+    ys, err, done = [], None, 0
+    drawn = [pynetdicom2._new_msg_id() for _ in range(40000)]      # a long-lived thread: many ids already handed out
+    with loopback.serving(srv) as port:
+        try:
+            for _k in range(times):
+                ys = [((sd.encode_ds(a) if a is not None else None), int(b))
+                      for a, b in pynetdicom2.c_find(loopback.remote(port), 'CLIENT', query)]
+                done += 1
+        except Exception as e:  # noqa
+            err = repr(e)
+            ys = []
+    ids_unique = len(set(drawn + wire_ids)) == len(drawn) + len(wire_ids)
+    query_seen = (done == times and len(seen) == times and all(x == sd.encode_ds(query) for x in seen) and ids_unique)
+    term = '(Wrapper %s %s %s)' % (
+        cbool(query_seen), clist(['(%s, %d)' % (cbytes(sd.encode_ds(d)), st) for d, st in matches]),
+        clist(['(%s, %d)' % ('None' if a is None else '(Some %s)' % cbytes(a), b) for a, b in ys]))
+    human = dict(variant='c_find-wrapper-repeated', calls=times, completed=done, message_ids_unique=ids_unique,
+                 wire_ids=wire_ids[:3] + wire_ids[-2:], n_matches=2, statuses=['0xff00'] * 2, error=err,
+                 yielded=len(ys), yielded_statuses=[hex(b) for _a, b in ys], query_seen=query_seen, max_pdu=65536)
+    return term, human
+
+
 def main_c16(tier, seed):
     dec = common.Decision('C16', tier, seed)
     common.static_gate(dec, ['Properties/C16.v'], ['Proofs/ServicesProofs.v'])
@@ -351,6 +394,7 @@ def main_c16(tier, seed):
     for root_name in ('patient', 'study'):
         for _ in range(6 if tier == 'quick' else 40):
             obs.append(find_wrapper_case(rng, root_name))
+    obs.append(find_wrapper_repeated(rng, 70 if tier == 'quick' else 140))
     return finish(dec, 'C16', obs, 'fcase', [('corr', 'find_corr'), ('spec', 'find_spec')],
                   ('query/retrieve C-FIND and modality worklist: result sequences of length 0,1,2,3,7 with seeded data sets '
                    'of several sizes and any mix of FF00 / FF01, maximum PDU lengths forcing multi-fragment responses, the '
